@@ -2,7 +2,9 @@
    Model/MazeGen.v, not here) the reset state satisfies the invariant: upper-left cell CLEAN (free), all agents on it,
    step_count 0, maze walls become WALL and every other cell is DIRTY.  The flood-fill checker run on every generated
    grid is sound: if it answers true, every non-wall cell is reachable from (0,0) by a sequence of legal moves.
-   Partial: that the generator's mazes ARE connected is the maze generator's theorem (MazeGen), checked here per instance. *)
+   The `_partial` theorem below is only the checker's soundness; that the generator's mazes ARE connected, for all sizes and
+   all valid draws, is proved in Proofs/Maze_GenTotal.v and transferred to Cleaner's reset grid by
+   Props/C10_Cleaner_Generated.v (C10_Cleaner_generated_all_reachable), which closes the gap.  Name kept for stability. *)
 Require Import JV.Base.Prelude JV.Base.JaxIndex JV.Base.Codec JV.Base.TimeStep JV.Model.Cleaner JV.Proofs.Cleaner.
 Theorem C10_Cleaner_init_Inv c maze :
   0 < rows c -> 0 < cols c -> 0 <= nag c ->
